@@ -40,6 +40,7 @@ def measure_response_decode_guarded():
     from rpyc.core.stream import Stream
 
     class Null(Stream):
+        MAX_IO_CHUNK = 64000
         closed = False
 
         def close(self):
@@ -88,16 +89,36 @@ def measure_response_decode_guarded():
     return reply and exc
 
 
+def _table_sizes(conn):
+    """sizes of the three tables of a connection: (request callbacks, local objects, proxy cache)"""
+    out = []
+    for name in ("_request_callbacks", "_local_objects", "_proxy_cache"):
+        coll = getattr(conn, name)
+        inner = getattr(coll, "_dict", coll)
+        try:
+            out.append(len(inner))
+        except Exception as ex:  # noqa
+            raise Inexpressible("cannot take the size of Connection.%s (%s): %r" % (name, type(coll).__name__, ex))
+    return tuple(out)
+
+
 def measure_cleanup():
-    """Two facts about `Connection._cleanup`, measured on the live class:
-    idempotent — a second `_cleanup()` on the same connection returns quietly (True) or raises AttributeError (False);
-    survives  — when the stream's close() raises, the disconnect hook still runs once and the tables are still cleared
-                (True), or neither happens (False)."""
+    """Two facts about `Connection._cleanup` / `close()`, measured on the live class:
+    idempotent - a second `_cleanup()` on the same connection returns quietly and leaves all three tables empty (True) or
+                 raises AttributeError (False);
+    survives  - in EACH of these the disconnect hook runs exactly once and ALL THREE tables (request callbacks, local
+                objects, proxy cache) end empty and `closed` is True:
+                  (1) `_cleanup()` when the stream's close() raises;
+                  (2) `_cleanup()` when the stream's close() raises AND the disconnect hook raises;
+                  (3) `close()` when the `before_closed` hook raises (close_catchall off) AND the stream's close() raises.
+                True when all three hold; False otherwise."""
     from rpyc.core.channel import Channel
     from rpyc.core.service import Service
     from rpyc.core.stream import Stream
 
     class Null(Stream):
+        MAX_IO_CHUNK = 64000
+
         def __init__(self, fail):
             self.fail = fail
             self.is_closed = False
@@ -124,45 +145,127 @@ def measure_cleanup():
         def write(self, data):
             pass
     runs = []
+    keep = []
 
-    class Svc(Service):
-        def on_disconnect(self, conn):
-            runs.append(1)
+    class Held(object):
+        pass
+
+    class HookBoom(Exception):
+        pass
+
+    class BeforeBoom(Exception):
+        pass
+
+    def make(fail, hook_raises=False, cfg=None):
+        class Svc(Service):
+            def on_disconnect(self, conn):
+                runs.append(1)
+                if hook_raises:
+                    raise HookBoom()
+        conn = Svc()._connect(Channel(Null(fail), False), cfg or {})
+        conn._request_callbacks[0] = lambda a, b: None
+        held = Held()
+        keep.append(held)
+        label, _ = conn._box(held)                       # an entry in _local_objects
+        conn._proxy_cache[("x", 1, 2)] = held            # an entry in the proxy cache
+        if 0 in _table_sizes(conn):
+            raise Inexpressible("cannot fill the three tables for the _cleanup probe: sizes %r" % (_table_sizes(conn),))
+        return conn
     try:
-        conn = Svc()._connect(Channel(Null(False), False), {})
+        conn = make(False)
         conn._cleanup()
+    except Inexpressible:
+        raise
     except Exception as ex:  # noqa
         raise Inexpressible("cannot set up the _cleanup probe: %r" % (ex,))
+    if _table_sizes(conn) != (0, 0, 0) or len(runs) != 1:
+        raise Inexpressible("a plain _cleanup(): hook runs %d, table sizes %r" % (len(runs), _table_sizes(conn)))
     try:
         conn._cleanup()
-        idempotent = True
+        idempotent = _table_sizes(conn) == (0, 0, 0)
     except AttributeError:
         idempotent = False
     except Exception as ex:  # noqa
         raise Inexpressible("a second _cleanup() raised %r" % (ex,))
     if len(runs) != 1:
         raise Inexpressible("two _cleanup() calls ran the disconnect hook %d times" % len(runs))
-    del runs[:]
-    conn2 = Svc()._connect(Channel(Null(True), False), {})
-    conn2._request_callbacks[0] = lambda a, b: None
-    try:
-        conn2._cleanup()
-        raise Inexpressible("_cleanup() swallowed the stream's close() error")
-    except OSError:
-        pass
-    except Inexpressible:
-        raise
-    except Exception as ex:  # noqa
-        raise Inexpressible("_cleanup() with a failing stream close raised %r" % (ex,))
-    released = len(conn2._request_callbacks) == 0
-    if len(runs) == 1 and released:
-        survives = True
-    elif len(runs) == 0 and not released:
-        survives = False
-    else:
-        raise Inexpressible("_cleanup() with a failing stream close: hook runs %d, tables cleared %s" % (len(runs), released))
-    conn2._closed = True
+
+    def scenario(name, conn, act, accepted):
+        del runs[:]
+        try:
+            act(conn)
+            raise Inexpressible("%s: the error was swallowed" % name)
+        except accepted:
+            pass
+        except Inexpressible:
+            raise
+        except Exception as ex:  # noqa
+            raise Inexpressible("%s raised %r" % (name, ex))
+        ok = len(runs) == 1 and _table_sizes(conn) == (0, 0, 0) and bool(conn.closed)
+        detail = "%s: hook runs %d, table sizes %r, closed %s" % (name, len(runs), _table_sizes(conn), conn.closed)
+        conn._closed = True
+        return ok, detail
+    results = [
+        scenario("_cleanup() with a failing stream close", make(True), lambda c: c._cleanup(), (OSError,)),
+        scenario("_cleanup() with a failing stream close and a raising hook", make(True, hook_raises=True),
+                 lambda c: c._cleanup(), (OSError, HookBoom)),
+        scenario("close() with a raising before_closed and a failing stream close",
+                 make(True, cfg={"before_closed": lambda root: (_ for _ in ()).throw(BeforeBoom()), "close_catchall": False}),
+                 lambda c: c.close(), (OSError, BeforeBoom)),
+    ]
+    survives = all(ok for ok, _d in results)
+    measure_cleanup.detail = [d for _ok, d in results]
     return idempotent, survives
+
+
+def measure_box_refuses_on_closed_channel():
+    """`_box`, by-reference branch, on a connection whose channel is closed: raises EOFError and registers nothing (True) /
+    registers the object for a peer that can no longer release it (False)."""
+    from rpyc.core import consts
+    from rpyc.core.channel import Channel
+    from rpyc.core.service import VoidService
+    from rpyc.core.stream import Stream
+
+    class Null(Stream):
+        MAX_IO_CHUNK = 64000
+        is_closed = False
+
+        @property
+        def closed(self):
+            return self.is_closed
+
+        def close(self):
+            self.is_closed = True
+
+        def fileno(self):
+            raise EOFError()
+
+        def poll(self, timeout):
+            return False
+
+        def read(self, count):
+            raise EOFError()
+
+        def write(self, data):
+            pass
+    try:
+        conn = VoidService()._connect(Channel(Null(), False), {})
+        conn.close()
+    except Exception as ex:  # noqa
+        raise Inexpressible("cannot set up the box-after-close probe: %r" % (ex,))
+    if _table_sizes(conn) != (0, 0, 0) or not conn.closed:
+        raise Inexpressible("close() on a quiet connection left table sizes %r, closed %s" % (_table_sizes(conn), conn.closed))
+    try:
+        label, _v = conn._box(object())
+    except EOFError:
+        if _table_sizes(conn)[1] == 0:
+            return True
+        raise Inexpressible("_box on a closed channel raised EOFError but registered the object")
+    except Exception as ex:  # noqa
+        raise Inexpressible("_box on a closed channel raised %r" % (ex,))
+    if label == consts.LABEL_REMOTE_REF and _table_sizes(conn)[1] == 1:
+        return False
+    raise Inexpressible("_box on a closed channel returned label %r with %d local objects" % (label, _table_sizes(conn)[1]))
 
 
 def measure_dispatch_closes_on_eof():
@@ -263,8 +366,12 @@ def gen_proto():
     idem, surv = measure_cleanup()
     L += ["", "/-- measured on the live `Connection._cleanup`: a second run returns quietly (true) / raises AttributeError (false) -/",
           "def cleanupIdempotent : Bool := %s" % ("true" if idem else "false"),
-          "", "/-- measured: when the stream's close() raises, `_cleanup` still runs the hook once and releases everything -/",
+          "", "/-- measured: when the stream's close() raises (alone; with a raising disconnect hook; under close() with a raising",
+          "before_closed), the hook still runs exactly once, all three tables end empty and `closed` is true -/",
           "def cleanupSurvivesChannelCloseError : Bool := %s" % ("true" if surv else "false")]
+    L += ["", "/-- measured on the live `Connection._box`: boxing by reference on a closed channel raises EOFError and registers",
+          "nothing (true) / registers the object (false) -/",
+          "def boxRefusesOnClosedChannel : Bool := %s" % ("true" if measure_box_refuses_on_closed_channel() else "false")]
     L += ["", "end Rpyc.Gen.Proto", ""]
     return "\n".join(L)
 
